@@ -3,7 +3,7 @@
 usage: mutate.py <mutant id|all> [--props C01,C02] [--tests]"""
 import argparse, json, os, subprocess, sys
 V = os.path.dirname(os.path.dirname(os.path.abspath(__file__)))
-REPO = "/repo"
+REPO = os.environ.get("VERIF_REPO", "/repo")
 
 def sh(cmd, **kw):
     return subprocess.run(cmd, shell=True, capture_output=True, text=True, **kw)
@@ -17,7 +17,7 @@ def main():
     a = ap.parse_args()
     cat = json.load(open(os.path.join(V, "mutants", "catalogue.json")))
     todo = [m for m in cat if a.mid in ("all", m["id"]) or m["id"].startswith(a.mid)]
-    assert sh("git -C /repo status --porcelain --untracked-files=no").stdout.strip() == "", "repo dirty"
+    assert sh("git -C %s status --porcelain --untracked-files=no" % REPO).stdout.strip() == "", "repo dirty"
     results = []
     for m in todo:
         try:
@@ -26,11 +26,11 @@ def main():
                 s = open(p).read()
                 assert s.count(ed["old"]) == 1, "pattern not unique in %s: %r (%d)" % (ed["file"], ed["old"], s.count(ed["old"]))
                 open(p, "w").write(s.replace(ed["old"], ed["new"]))
-            b = sh("cd /repo && go build ./... 2>&1")
+            b = sh("cd %s && go build ./... 2>&1" % REPO)
             if b.returncode != 0:
                 print(m["id"], "DOES NOT COMPILE", b.stdout[-500:]); continue
             if a.tests:
-                t = sh("cd /repo && go test -vet=off -count=1 ./... 2>&1 | tail -15")
+                t = sh("cd %s && go test -vet=off -count=1 ./... 2>&1 | tail -15" % REPO)
                 print(m["id"], "tests:", "FAIL" in t.stdout and "TESTS FAIL" or "tests pass")
                 if "FAIL" in t.stdout: print(t.stdout)
             props = a.props.split(",") if a.props else m["props"]
@@ -40,7 +40,7 @@ def main():
                 print("%-28s %s rc=%d %s" % (m["id"], pr, r.returncode, " | ".join(v[:4])), flush=True)
                 results.append((m["id"], pr, r.returncode))
         finally:
-            sh("git -C /repo checkout -- .")
+            sh("git -C %s checkout -- ." % REPO)
     missed = [r for r in results if r[2] != 1]
     print("missed:", missed)
 
